@@ -615,6 +615,7 @@ type InstanceResult struct {
 	Funcs      map[string]bool
 	Asserts    int
 	AssertsNT  int
+	NTPaths    int
 	Covered    map[string]bool
 	Samples    []string
 	PanicSites map[string]int
@@ -674,6 +675,11 @@ func (w *Worker) Explore(fn *ssa.Function, args []int64) *InstanceResult {
 		}
 		res.Asserts += p.assertsN
 		res.AssertsNT += p.assertsNT
+		if p.assertsN > 0 && len(p.dec) > 0 && (end.status == "done" || end.status == "panic") {
+			// a distinct feasible path (distinct decision sequence) whose verdict
+			// depended on at least one solver-decided branch, choice or assertion
+			res.NTPaths++
+		}
 		if w.Opts.Concrete != nil {
 			res.Obs = append(res.Obs, p.obs)
 		}
